@@ -95,8 +95,11 @@ package dns
 //@   opt no-safety
 //@   ensures fresh(ret0)
 //@   pure
-//@ func Len [C16 C08]
+//@ func Len [C16 C08 C09]
 //@   opt no-safety
+// the length of a record is what its type's len method counts for its fields as they are now (a header's Rdlength is
+// bookkeeping of the last pack or unpack, not a source)
+//@   exit exact: called("len") && ret0 == callres("len") [C08 C09]
 //@   ensures nonneg: ret0 >= 0
 //@   pure
 //@ func IsDuplicate [C16 C20]
